@@ -36,8 +36,10 @@ package cron
 //@   assert[C16.fires_only_when_due] at "c.resetTimer()": nanos(now) >= nanos(job.Next)
 //@   assert[C16.pops_under_lock]     at "c.resetTimer()": heldW(c.Mutex)
 
+// (assumed: the job's function does not write the job record, and reaches the timeline only through the cron's own
+// operations, each of which re-establishes the representation invariant - so the invariant survives the call)
 //@ funcval (*Cron).run.Fn
-//@   modifies allbut(F:cron.CronJob.)
+//@   modifies allbut(F:cron.CronJob.|F:cron.Cron.Timeline|E:*cron.CronJob)
 //@ func (*Cron).run
 //@   ensures[C16.oneshot_not_rescheduled] old(job.Expression) == nil ==> !rescheduled
 //@   ensures[C16.recurring_rescheduled]   old(job.Expression) != nil ==> rescheduled
@@ -82,3 +84,68 @@ package cron
 // sort.Search calls its predicate only with indices in [0, n) (assumed contract of the dependency)
 //@ func (Timeline).Search$1
 //@   assume-entry i >= 0 && i < len(tl)
+
+// ---- C16: the timeline stays sorted by due time ------------------------------------------------------
+// (representation invariant of the in-memory cron: required by insert / Search, preserved by insert and rem)
+//@ define uniqueTL(tl) = forall(i, int, forall(j, int, 0 <= i && i < j && j < len(tl) ==> tl[i] != tl[j]))
+//@ define uniqueIds(tl) = forall(i, int, forall(j, int, 0 <= i && i < j && j < len(tl) ==> tl[i].Id != tl[j].Id))
+//@ define noEntryWithId(tl, id) = forall(i, int, 0 <= i && i < len(tl) ==> tl[i].Id != id)
+//@ define sortedTL(tl) = forall(i, int, forall(j, int, 0 <= i && i <= j && j < len(tl) ==> nanos(tl[i].Next) <= nanos(tl[j].Next)))
+// Timeline.Search is sort.Search over "t.Before(tl[i].Next)": on a sorted timeline it returns the first entry due after t.
+// TRUSTED (the dependency sort.Search and the monotonicity of the predicate are not verified).
+//@ func (Timeline).Search
+//@   trusted
+//@   requires[C16.search_needs_sorted_timeline] sortedTL(tl)
+//@   ensures result >= 0 && result <= len(tl)
+//@   ensures forall(i, int, 0 <= i && i < result ==> nanos(tl[i].Next) <= nanos(t))
+//@   ensures forall(i, int, result <= i && i < len(tl) ==> nanos(t) < nanos(tl[i].Next))
+//@   pure-effects
+//@ func (*Cron).insert
+//@   requires[C16.insert_needs_sorted_timeline] sortedTL(c.Timeline)
+//@   requires[C16.insert_needs_distinct_entries] uniqueTL(c.Timeline)
+//@   requires[C16.insert_job_not_pending]        jobNotIn(c.Timeline, job)
+//@   requires[C16.insert_id_not_pending]         uniqueIds(c.Timeline) && noEntryWithId(c.Timeline, job.Id)
+//@   ensures[C16.insert_keeps_one_entry_per_id]  uniqueIds(c.Timeline)
+//@   ensures[C16.insert_keeps_sorted] sortedTL(c.Timeline)
+//@   ensures[C16.insert_keeps_entries_distinct] uniqueTL(c.Timeline)
+//@   ensures[C16.insert_places_job]   c.Timeline[result] == job
+//@ func (*Cron).rem
+//@   requires[C16.rem_needs_sorted_timeline] sortedTL(c.Timeline)
+//@   requires[C16.rem_needs_distinct_entries] uniqueTL(c.Timeline)
+//@   requires[C16.rem_needs_one_entry_per_id] uniqueIds(c.Timeline)
+//@   ensures[C16.rem_leaves_no_entry_with_the_id] noEntryWithId(c.Timeline, id)
+//@   ensures[C16.rem_keeps_one_entry_per_id]  uniqueIds(c.Timeline)
+//@   loop 1: invariant[C16.rem_scan] forall(k, int, 0 <= k && k <= rangeindex ==> c.Timeline[k].Id != id)
+//@   ensures[C16.rem_keeps_sorted] sortedTL(c.Timeline)
+//@   ensures[C16.rem_keeps_entries_distinct] uniqueTL(c.Timeline)
+//@   ensures[C16.rem_entries_come_from_before] forall(i, int, 0 <= i && i < len(c.Timeline) ==> c.Timeline[i] == old(c.Timeline[i]) || (len(c.Timeline) < old(len(c.Timeline)) && c.Timeline[i] == old(c.Timeline[i+1])))
+// The public operations assume the representation invariant at entry (it holds between operations: every operation that
+// writes the timeline is proved to re-establish it) and re-establish it.
+//@ define jobNotIn(tl, job) = forall(i, int, 0 <= i && i < len(tl) ==> tl[i] != job)
+//@ func (*Cron).schedule
+//@   requires[C16.schedule_needs_sorted_timeline] sortedTL(c.Timeline)
+//@   requires[C16.schedule_job_not_pending]       jobNotIn(c.Timeline, job) && uniqueTL(c.Timeline)
+//@   requires[C16.schedule_needs_one_entry_per_id] uniqueIds(c.Timeline)
+//@   ensures[C16.schedule_keeps_one_entry_per_id] uniqueIds(c.Timeline)
+//@   ensures[C16.schedule_keeps_entries_distinct] uniqueTL(c.Timeline)
+//@   ensures[C16.schedule_keeps_sorted] sortedTL(c.Timeline)
+//@ func (*Cron).Rem
+//@   assume-entry sortedTL(c.Timeline) && uniqueTL(c.Timeline) && uniqueIds(c.Timeline)
+//@   ensures[C16.Rem_keeps_sorted] sortedTL(c.Timeline)
+//@   ensures[C16.Rem_keeps_entries_distinct] uniqueTL(c.Timeline)
+//@   ensures[C16.Rem_keeps_one_entry_per_id] uniqueIds(c.Timeline)
+//@   ensures[C16.Rem_leaves_no_entry_with_the_id] noEntryWithId(c.Timeline, id)
+//@ func (*Cron).Add
+//@   assume-entry sortedTL(c.Timeline) && uniqueTL(c.Timeline) && uniqueIds(c.Timeline)
+//@   assume-entry forall(i, int, 0 <= i && i < len(c.Timeline) ==> !fresh(c.Timeline[i]))
+//@   ensures[C16.Add_keeps_sorted] sortedTL(c.Timeline)
+//@   ensures[C16.Add_keeps_entries_distinct] uniqueTL(c.Timeline)
+//@   ensures[C16.Add_keeps_one_entry_per_id] uniqueIds(c.Timeline)
+// run() is handed a job the loop has just popped (assumed: the loop's select / goroutine composition is not modelled)
+//@ func (*Cron).run
+//@   assume-entry sortedTL(c.Timeline) && uniqueTL(c.Timeline) && uniqueIds(c.Timeline) && jobNotIn(c.Timeline, job)
+//@ func (*Cron).start
+//@   assume-entry sortedTL(c.Timeline) && uniqueTL(c.Timeline)
+//@   loop 1: invariant[C16.loop_keeps_sorted] sortedTL(c.Timeline) && uniqueTL(c.Timeline)
+//@   assert[C16.pop_keeps_sorted]        at "c.resetTimer()": sortedTL(c.Timeline)
+//@   assert[C16.popped_job_not_pending]  at "c.resetTimer()": jobNotIn(c.Timeline, job)
